@@ -502,6 +502,9 @@ PANIC_EXCEPTIONS = [
      'constant ranges ..TAG_LENGTH / TAG_LENGTH.. of a [u8; 384/8] array'),
     (r'^core::primitives::J_hash$', 'slice-op', r'^copy_from_slice$', 2,
      'constant lengths: TAG_LENGTH + SHARED_SECRET_LENGTH = 384/8'),
+    (r'P256Scalar as traits::Sampling>::hash$', 'overflow', r'^Add:u32$', 1,
+     'rejection-sampling counter of hash-to-scalar: an iteration repeats only when a SHA3-256 output is not below the P-256 group '
+     'order (probability about 2^-32 per iteration, independent of the input bytes); 2^32 consecutive repeats do not happen'),
     (r'^abe_policy::rights::Right::from_point$', 'overflow', r'^Mul$', 1,
      'capacity hint 4 * number of identifiers of an in-memory vector'),
     (r'^abe_policy::access_policy::AccessPolicy::to_dnf$', 'overflow', r'^Mul$', 1,
@@ -560,6 +563,8 @@ def discharge(ctx, F, ps):
         return None
     if ps.kind == 'index' and ps.call is not None and len(ps.call.args) == 2:
         c = ps.call
+        if 'RangeFull' in (c.full or '') and 'str' not in (c.self_ty or ''):
+            return 'x[..]: the full range of a slice / Vec cannot be out of bounds'
         ra = lib.range_arg(body, c.args[1])
         if ra is not None and ra[0] == 'RangeFrom':
             # x[k..] needs len >= k
